@@ -233,7 +233,7 @@ fn c06_backend<V: VirtualFileSystem>(v: &V, backend: &str, root: &str, ctx: &Ctx
                 }
             },
             5 => {
-                let n = rng.below(4);
+                let n = if rng.chance(1, 25) { 600 + rng.below(900) } else { rng.below(4) };
                 let lines: Vec<String> = (0..n).map(|i| match rng.below(10) {
                     0 | 1 => String::new(),
                     2 => format!("wl{}-{}é\n", uid, i),
@@ -241,7 +241,7 @@ fn c06_backend<V: VirtualFileSystem>(v: &V, backend: &str, root: &str, ctx: &Ctx
                 }).collect();
                 uid += 1;
                 after = format!("write_lines({}, {} lines)", f, n);
-                rep.key_str(&format!("{}|write_lines|{}|{}", backend, n, pre_cls));
+                rep.key_str(&format!("{}|write_lines|{}|{}", backend, n.min(5), pre_cls));
                 if exec(v, &Op::WriteLines(f.clone(), lines.clone())) == Res::Unit {
                     model.insert(f.clone(), lines.iter().map(|l| format!("{}\n", l)).collect::<String>().into_bytes());
                     // round trip law for terminator-free non-empty lines
@@ -273,11 +273,12 @@ fn c06_backend<V: VirtualFileSystem>(v: &V, backend: &str, root: &str, ctx: &Ctx
                 }
             },
             7 => {
-                let n = rng.below(3);
+                // (now and then far more lines than fit one vectored write: every one of them arrives)
+                let n = if rng.chance(1, 25) { 600 + rng.below(900) } else { rng.below(3) };
                 let lines: Vec<String> = (0..n).map(|i| if rng.chance(1, 5) { format!("as{}-{}\n", uid, i) } else { format!("as{}-{}", uid, i) }).collect();
                 uid += 1;
                 after = format!("append_lines({}, {} lines)", f, n);
-                rep.key_str(&format!("{}|append_lines|{}|{}", backend, n, pre_cls));
+                rep.key_str(&format!("{}|append_lines|{}|{}", backend, n.min(4), pre_cls));
                 if exec(v, &Op::AppendLines(f.clone(), lines.clone())) == Res::Unit {
                     model.entry(f.clone()).or_default().extend(lines.iter().map(|l| format!("{}\n", l)).collect::<String>().bytes());
                 }
@@ -879,6 +880,57 @@ fn c07_failed_flush<V: VirtualFileSystem>(v: &V, backend: &str, root: &str, rep:
     }
 }
 
+/// An append handle on a file that is already large, a large block through it, then small records: every flush and the
+/// drop deliver exactly what was written since the last one (sizes beyond any internal buffer or release threshold).
+fn c07_large_append<V: VirtualFileSystem>(v: &V, backend: &str, root: &str, rep: &mut Report) {
+    let _ = v.mkdir_p(root);
+    for (pre_len, block) in [(5usize, 100usize), (70_000, 5), (5, 100_000), (70_000, 300_000)] {
+        rep.eval();
+        let path = format!("{}/big", root);
+        let _ = v.remove(&path);
+        let mut model: Vec<u8> = (0..pre_len).map(|i| b'a' + (i % 26) as u8).collect();
+        let _ = v.write_all(&path, &model);
+        rep.key_str(&format!("{}|append|large|pre{}|block{}", backend, pre_len > 65536, block > 65536));
+        let r = catch(|| -> Option<String> {
+            let mut h = match v.append(&path) {
+                Ok(h) => h,
+                Err(e) => return Some(format!("open: {}", e)),
+            };
+            let steps: Vec<(Vec<u8>, bool)> = vec![
+                ((0..block).map(|i| b'A' + (i % 26) as u8).collect(), true),
+                (b"|rec-1".to_vec(), true),
+                (b"|rec".to_vec(), false),
+                (b"-2".to_vec(), true),
+                (b"|rec-3".to_vec(), false),
+            ];
+            for (i, (d, flush)) in steps.iter().enumerate() {
+                if h.write_all(d).is_err() {
+                    return Some(format!("write {} failed", i));
+                }
+                model.extend(d);
+                if *flush {
+                    if h.flush().is_err() {
+                        return Some(format!("flush {} failed", i));
+                    }
+                    if exec(v, &Op::ReadBytes(path.clone())) != Res::Bytes(model.clone()) {
+                        return Some(format!("after flush {}: file differs from everything written so far ({} bytes expected)", i, model.len()));
+                    }
+                }
+            }
+            drop(h);
+            if exec(v, &Op::ReadBytes(path.clone())) != Res::Bytes(model.clone()) {
+                return Some(format!("after drop: file differs from everything written ({} bytes expected)", model.len()));
+            }
+            None
+        });
+        match r {
+            Err(m) => rep.violation(&format!("handle:append({},large):no-panic→panic", backend), J::s(m)),
+            Ok(Some(d)) => rep.violation(&format!("handle:append({},large):bytes-written-so-far→differs", backend), J::obj(vec![("existing_bytes", J::Int(pre_len as i64)), ("block_bytes", J::Int(block as i64)), ("detail", J::s(d))])),
+            Ok(None) => {},
+        }
+    }
+}
+
 fn c07(ctx: &Ctx, rep: &mut Report) {
     let (sb, root) = Sandbox::nested("c07");
     if !drop_privileges(&sb, 1000, 1000) {
@@ -892,9 +944,14 @@ fn c07(ctx: &Ctx, rep: &mut Report) {
     if ctx.shard == 0 {
         c07_failed_flush(&m, "memfs", "/ff", rep);
         c07_failed_flush(&vm, "vfs-memfs", "/ff", rep);
+        c07_large_append(&m, "memfs", "/la", rep);
+        c07_large_append(&vm, "vfs-memfs", "/la", rep);
     }
     let s = Stdfs::new();
     c07_read(&s, "stdfs", &format!("{}/r", root), ctx, rep, false);
     c07_write(&s, "stdfs", &format!("{}/w", root), ctx, rep);
+    if ctx.shard == 0 {
+        c07_large_append(&s, "stdfs", &format!("{}/la", root), rep);
+    }
     drop(sb);
 }
